@@ -306,3 +306,33 @@ Proof.
     destruct E as [p [Hin Ep]]. apply Nat.eqb_eq in Ep. subst p. specialize (Hp _ Hin). lia.
   - intros r' Hr' E. simpl in E. specialize (Hq r' Hr'). lia.
 Qed.
+
+(* ---- a processed mark is never removed: once a message's handling has committed, it stays processed in every
+        continuation of the run ---- *)
+Lemma processed_op_mono o s p : mem_nat p (w_processed s) = true -> mem_nat p (w_processed (apply_op s o)) = true.
+Proof.
+  intros H. destruct o; simpl; try exact H.
+  - unfold mutate_stage. destruct (get_stage s i); exact H.
+  - destruct (mem_nat id (w_processed s)); [exact H|]. unfold mem_nat in *. simpl. rewrite H. apply orb_true_r.
+Qed.
+
+Lemma processed_commit_mono c : forall s p, mem_nat p (w_processed s) = true -> mem_nat p (w_processed (apply_commit s c)) = true.
+Proof. unfold apply_commit. induction c as [|o c IH]; simpl; intros s p H; [exact H|]. apply IH, processed_op_mono, H. Qed.
+
+Lemma processed_commits_mono cs : forall s p, mem_nat p (w_processed s) = true -> mem_nat p (w_processed (apply_commits cs s)) = true.
+Proof. induction cs as [|c cs IH]; simpl; intros s p H; [exact H|]. apply IH, processed_commit_mono, H. Qed.
+
+Theorem processed_step_mono orc s a p : mem_nat p (w_processed s) = true -> mem_nat p (w_processed (step orc s a)) = true.
+Proof.
+  intros H. destruct a; simpl; try exact H.
+  - destruct (delivery_commits orc s id do_ack) as [d|]; [|exact H].
+    apply processed_commits_mono. destruct (d_pre d) as [[i t]|]; simpl; apply processed_commit_mono, H.
+  - destruct k; [exact H|]. destruct (delivery_commits orc s id true) as [d|]; [|exact H].
+    apply processed_commits_mono. destruct (d_pre d) as [[i t]|]; simpl; apply processed_commit_mono, H.
+  - unfold recover. apply processed_commit_mono, H.
+  - apply processed_commit_mono, H.
+Qed.
+
+Theorem processed_run_mono orc acts : forall s p,
+  mem_nat p (w_processed s) = true -> mem_nat p (w_processed (run orc s acts)) = true.
+Proof. unfold run. induction acts as [|a acts IH]; simpl; intros s p H; [exact H|]. apply IH, processed_step_mono, H. Qed.
